@@ -71,7 +71,7 @@ fn check_all_dc(acc: &mut Acc, v: &Envelope, ids: &[Id], signed: u32, dontcare: 
                         for oa in o.assertions() { if let (Some(p), Some(ob)) = (oa.as_predicate(), oa.as_object()) { if bind::dg(&p) == M::Known(3).digest() { if let Ok(sig) = ob.extract_subject::<Signature>() { if id.pk.verify(&sig, &bind::dg(&subj)) { covered = true } } } } }
                     } }
                 }
-                if !covered { acc.viol(format!("C09|returning_metadata|{class}|metadata-not-covered"), "metadata was returned that is not covered by a signature from the verifying key", cid(), json!({"envelope": hex::encode(v.to_cbor_data()), "key": id.name, "metadata": md.format_flat()})) }
+                if !covered { acc.viol(format!("C09|returning_metadata|{class}|metadata-not-covered"), "metadata was returned that is not covered by a signature from the verifying key", cid(), json!({"envelope": hex::encode(v.to_cbor_data()), "key": id.name, "metadata": crate::report::ff(&md)})) }
                 else { acc.inc("metadata_coverage_confirmed") }
             }
         }
